@@ -13,6 +13,7 @@
 import FwdVerif.Lemmas.C17Main
 import FwdVerif.Lemmas.C17Subject
 import FwdVerif.Lemmas.C17Conc
+import FwdVerif.Lemmas.C17Local
 
 namespace FwdVerif
 namespace C17
@@ -610,6 +611,198 @@ example : Valid abcList ∧ ∃ st, tinit abcList = some st ∧ st.pend = [] := 
 -- the code's model on the calls of `lossSchedule`, in both orders: every answer is the specified one
 example : (matchesOf abcList [98], matchesOf abcList [99], matchesOf abcList [97]) = (some true, some true, some true) := by
   decide
+
+/-! ### The lists composed with the proxy-localhost mode; subjects of every length
+
+Model: `FwdVerif/Model/C17Local.lean`.  `siteOutcome mode loc L connect authority` = what becomes of
+a request on a proxy started with `--proxy-localhost=mode` and the three lists `L`, in the order the
+wrappers of `http_proxy.go` are composed (denyLocalhost, deny-domains, mitm-domains, directLocalhost,
+direct-domains); `loc` = `hp.isLocalhost`, a parameter (the driver uses `localhostClass aliases`).
+`mergedOutcome` and `Matcher.guardedMatches` are NOT the code (witnesses only). -/
+
+/-- `--proxy-localhost=allow`: NO wrapper asks about localhost, so for every classifier, every three
+    lists and every request — a localhost name, a loopback or unspecified literal, a hosts-file alias
+    included — the outcome is exactly what the three lists decide (`outcome`, to which
+    `c17_denied_iff`, `c17_intercepted_iff`, `c17_direct_iff` apply) -/
+theorem c17_local_allow_as_any_host (loc : Bytes → Bool) (L : Lists) (connect : Bool) (authority : Bytes) :
+    siteOutcome .allow loc L connect authority = .lists (outcome L connect authority) := by
+  unfold siteOutcome outcome
+  simp only [show (LocalMode.allow == LocalMode.deny) = false from rfl,
+    show (LocalMode.allow == LocalMode.direct) = false from rfl, Bool.false_and, Bool.false_eq_true, if_false]
+  split
+  · rfl
+  · split
+    · rfl
+    · split <;> rfl
+
+/-- in every mode a host outside the localhost class is decided by the three lists alone -/
+theorem c17_local_other_hosts (mode : LocalMode) (loc : Bytes → Bool) (L : Lists) (connect : Bool)
+    (authority : Bytes) (hl : loc (subjectOf authority) = false) :
+    siteOutcome mode loc L connect authority = .lists (outcome L connect authority) := by
+  unfold siteOutcome outcome
+  simp only [hl, Bool.and_false, Bool.false_eq_true, if_false]
+  split
+  · rfl
+  · split
+    · rfl
+    · split <;> rfl
+
+/-- the localhost refusal: in the deny mode, for the localhost class, whatever the lists say — and
+    in no other mode, for no other host -/
+theorem c17_local_refused_iff (mode : LocalMode) (loc : Bytes → Bool) (L : Lists) (connect : Bool)
+    (authority : Bytes) :
+    siteOutcome mode loc L connect authority = .localRefused ↔
+      mode = .deny ∧ loc (subjectOf authority) = true := by
+  unfold siteOutcome
+  constructor
+  · intro h
+    split at h
+    · rename_i c; simpa using c
+    · repeat (first | (split at h) | (exact absurd h (by simp)))
+  · rintro ⟨rfl, hl⟩
+    simp [hl]
+
+/-- `--proxy-localhost=direct`, a host of the localhost class: never through the upstream proxy,
+    whatever the direct-domains list says (the outcome does not depend on that list at all); deny- and
+    mitm-domains still apply, and a request they let through goes direct -/
+theorem c17_local_direct_mode (loc : Bytes → Bool) (L : Lists) (connect : Bool) (authority : Bytes)
+    (hl : loc (subjectOf authority) = true) :
+    siteOutcome .direct loc L connect authority ≠ .lists .upstream ∧
+    (∀ x, siteOutcome .direct loc { L with direct := x } connect authority =
+      siteOutcome .direct loc L connect authority) ∧
+    (optMatch L.deny false (subjectOf authority) = false →
+      (connect = false ∨ optMatch L.mitm true (subjectOf authority) = false) →
+      siteOutcome .direct loc L connect authority = .lists .direct) := by
+  refine ⟨?_, ?_, ?_⟩
+  · unfold siteOutcome
+    simp only [hl, show (LocalMode.direct == LocalMode.deny) = false from rfl, Bool.false_and, Bool.false_eq_true,
+      if_false, BEq.rfl, Bool.and_self, if_true]
+    split
+    · simp
+    · split <;> simp
+  · intro x
+    unfold siteOutcome
+    simp only [hl, show (LocalMode.direct == LocalMode.deny) = false from rfl, Bool.false_and, Bool.false_eq_true,
+      if_false, BEq.rfl, Bool.and_self, if_true]
+  · intro hd hi
+    have hc : (connect && optMatch L.mitm true (subjectOf authority)) = false := by
+      rcases hi with e | e <;> simp [e]
+    unfold siteOutcome
+    simp [hl, Site.subject, hd, hc]
+
+/-- the property at the direct-domains call site in the allow mode, for EVERY classifier — i.e. also
+    for the hosts `isLocalhost` says yes to: a request that is neither denied nor intercepted by-passes
+    the upstream proxy iff the list's rules, each on its own, say so of the host -/
+theorem c17_local_allow_direct_iff {l : List Rule} {m : Matcher} (hv : Valid l) (h : fromList l = .ok m)
+    (loc : Bytes → Bool) (L : Lists) (hL : L.direct = some m) {t : Target} (wf : WF t) (connect : Bool)
+    (hd : optMatch L.deny false t.host = false)
+    (hi : connect = false ∨ optMatch L.mitm true t.host = false) :
+    siteOutcome .allow loc L connect t.authority = .lists .direct ↔ Spec l t.host := by
+  rw [c17_local_allow_as_any_host]
+  constructor
+  · intro e
+    exact (c17_direct_iff hv h L hL wf connect hd hi).mp (by injection e)
+  · intro sp
+    rw [(c17_direct_iff hv h L hL wf connect hd hi).mpr sp]
+
+/-- why a merged `directHosts` wrapper passes for the code: it IS the code's composition in the deny
+    and direct modes and on every host outside the localhost class … -/
+theorem c17_merged_agrees (mode : LocalMode) (loc : Bytes → Bool) (L : Lists) (connect : Bool)
+    (authority : Bytes) (hm : mode ≠ .allow ∨ loc (subjectOf authority) = false) :
+    mergedOutcome mode loc L connect authority = siteOutcome mode loc L connect authority := by
+  unfold mergedOutcome siteOutcome mergedDirect
+  cases hl : loc (subjectOf authority) with
+  | false =>
+    simp only [Bool.and_false, Bool.false_eq_true, if_false, Site.subject]
+    repeat (first | rfl | split)
+  | true =>
+    cases mode with
+    | allow => simp [hl] at hm
+    | deny => simp
+    | direct => simp [Site.subject]
+
+/-- `GET http://127.0.0.1:80/` -/
+def loopbackTarget : Target := ⟨[49, 50, 55, 46, 48, 46, 48, 46, 49], false, some [56, 48]⟩
+/-- the list `.*` -/
+def anyList : List Rule := [⟨[46, 42], false⟩]
+
+/-- … and the kernel-checked witness that it is not in the allow mode: `GET http://127.0.0.1:80/`
+    under `--direct-domains=.*` with an upstream proxy.  The rule matches the host on its own; the
+    code's composition sends the request direct, the merged wrapper — which settles a localhost host
+    before the list is consulted — through the upstream proxy -/
+theorem c17_merged_short_circuit_witness :
+    WF loopbackTarget ∧ Valid anyList ∧ localhostClass [] loopbackTarget.host = true ∧
+    Spec anyList loopbackTarget.host ∧
+    ∀ m, fromList anyList = .ok m →
+      siteOutcome .allow (localhostClass []) { direct := some m } false loopbackTarget.authority = .lists .direct ∧
+      mergedOutcome .allow (localhostClass []) { direct := some m } false loopbackTarget.authority = .lists .upstream := by
+  have hloc : localhostClass [] loopbackTarget.host = true := by with_unfolding_all decide
+  have hs : subjectOf loopbackTarget.authority = loopbackTarget.host := c17_subject_is_host (by decide)
+  refine ⟨by decide, by decide, hloc, by decide, ?_⟩
+  intro m h
+  have h1 : matchesOf anyList loopbackTarget.host = some true := by decide
+  simp only [matchesOf, h, Option.some.injEq] at h1
+  constructor
+  · simp [siteOutcome, optMatch, Site.subject, hs, h1]
+  · simp [mergedOutcome, mergedDirect, optMatch, hs, hloc]
+
+/-- the inverse matcher is the negation of the union-minus-excludes for EVERY subject: `s` ranges
+    over all byte lists — of 1, 63, 64, 253, 254, 255 bytes, 1 KiB, 16 KiB, any length; nothing in
+    `Matcher.matches` looks at the length — and `Inverse().Inverse()` is the list again -/
+theorem c17_inverse_is_negation {l : List Rule} {m : Matcher} (hv : Valid l) (h : fromList l = .ok m)
+    (s : Bytes) :
+    (m.inv.matches s = true ↔ ¬ Spec l s) ∧ (m.inv.inv.matches s = true ↔ Spec l s) ∧
+      m.inv.matches s ≠ m.matches s := by
+  have hu : m.matches s = true ↔ Spec l s := c17_union hv h s
+  have hn := c17_inverse_negates m s
+  refine ⟨?_, ?_, ?_⟩
+  · rw [hn]
+    cases hm : m.matches s <;> simp [hm] at hu ⊢ <;> exact hu
+  · rw [c17_inverse_involutive]; exact hu
+  · rw [hn]; cases m.matches s <;> simp
+
+/-- a length guard placed in front of the rules and of the inversion: on every subject longer than
+    the bound that the rules select, `Match` is right, the guarded `Match` says no, and so does the
+    guarded `Inverse().Match` — matcher and inverse agree, the inverse is not the negation -/
+theorem c17_guard_loses_long_subjects {l : List Rule} {m : Matcher} (hv : Valid l) (h : fromList l = .ok m)
+    (n : Nat) (s : Bytes) (hl : s.length > n) (sp : Spec l s) :
+    m.matches s = true ∧ m.guardedMatches n s = false ∧ m.inv.guardedMatches n s = false ∧
+      m.inv.guardedMatches n s = m.guardedMatches n s := by
+  refine ⟨(c17_union hv h s).mpr sp, ?_, ?_, ?_⟩ <;> simp [Matcher.guardedMatches, hl]
+
+/-- the kernel-checked witness, for every bound `n` (253 in particular): the list `a` and the
+    subject `abb…b` of `n + 1` bytes.  The rule matches on its own, the code's `Match` says yes and its
+    `Inverse().Match` no; with the guard both say no -/
+theorem c17_guard_before_inversion_witness (n : Nat) :
+    ∃ (m : Matcher) (s : Bytes), Valid aList ∧ fromList aList = .ok m ∧ s.length = n + 1 ∧ Spec aList s ∧
+      m.matches s = true ∧ m.inv.matches s = false ∧
+      m.guardedMatches n s = false ∧ m.inv.guardedMatches n s = false := by
+  have hv : Valid aList := by decide
+  obtain ⟨m, hm⟩ := c17_constructs hv (by decide)
+  have sp : Spec aList (97 :: List.replicate n 98) := aList_spec _
+  have hl : (97 :: List.replicate n (98 : UInt8)).length > n := by simp
+  obtain ⟨h1, h2, h3, _⟩ := c17_guard_loses_long_subjects hv hm n _ hl sp
+  refine ⟨m, 97 :: List.replicate n 98, hv, hm, by simp, sp, h1, ?_, h2, h3⟩
+  rw [c17_inverse_negates, h1]; rfl
+
+example : Spec aList (97 :: List.replicate 253 98) ∧ (97 :: List.replicate 253 (98 : UInt8)).length = 254 :=
+  ⟨aList_spec _, by rw [List.length_cons, List.length_replicate]⟩
+-- c17_local_*: the classifier of the code says yes to `127.0.0.1`, `LOCALHOST`, `::1`, `0.0.0.0`, a hosts-file alias
+-- (`vm`, whatever its case) and no to `example.com`, `127.1`, `localhost.`
+example : localhostClass [] [49, 50, 55, 46, 48, 46, 48, 46, 49] = true ∧ localhostClass [] [76, 79, 67, 65, 76, 72, 79, 83, 84] = true ∧
+    localhostClass [] [58, 58, 49] = true ∧ localhostClass [] [48, 46, 48, 46, 48, 46, 48] = true ∧
+    localhostClass [[118, 109]] [86, 109] = true ∧ localhostClass [] [118, 109] = false ∧
+    localhostClass [] [101, 120, 97, 109, 112, 108, 101, 46, 99, 111, 109] = false ∧
+    localhostClass [] [49, 50, 55, 46, 49] = false ∧
+    localhostClass [] [108, 111, 99, 97, 108, 104, 111, 115, 116, 46] = false := by with_unfolding_all decide
+-- the three modes on `GET http://127.0.0.1:80/` under `--direct-domains=.*`: refused / as the list says / direct
+example : ∀ m, fromList anyList = .ok m →
+    siteOutcome .deny (localhostClass []) { direct := some m } false loopbackTarget.authority = .localRefused ∧
+    siteOutcome .direct (localhostClass []) { direct := none } false loopbackTarget.authority = .lists .direct := by
+  intro m _
+  have hloc : localhostClass [] (subjectOf loopbackTarget.authority) = true := by with_unfolding_all decide
+  exact ⟨(c17_local_refused_iff _ _ _ _ _).mpr ⟨rfl, hloc⟩,
+    (c17_local_direct_mode _ _ _ _ hloc).2.2 rfl (Or.inl rfl)⟩
 
 end C17
 end FwdVerif
